@@ -245,3 +245,7 @@ def check(P, R, tier):
     # process_qc(&block.qc) (which advances the round past qc.round) BEFORE the block can be parked for a later resume (C10.P4)
     from ..common import fold
     fold(R, P, "c10", ("C10.P4",), "C03.V6", 6)
+    # "carries a quorum certificate / timeout certificate": what make_vote inspects is a certificate only because the block
+    # (its signature, QC and TC) was verified on every route into the voting path, and because QC/TC::verify demand distinct
+    # members reaching the quorum (C04.S1: verification dominates every effect of a handler; C04.S2: the verify functions)
+    fold(R, P, "c04", ("C04.S1", "C04.S2"), "C03.V8", 30)
